@@ -49,7 +49,7 @@ theorem splitLines_facts : ∀ v : List Char,
       · simp only [hc, if_false]
         refine ⟨?_, ?_⟩
         · have : nlCount (c :: r) = nlCount r := by
-            simp [nlCount, List.count_cons, hc]
+            simp [nlCount, hc]
           rw [this]; simpa using h1
         · rw [joinedLen_cons_cons, h2]; simp
 
